@@ -4,9 +4,11 @@ import json, os, sys
 V = os.path.dirname(os.path.dirname(os.path.abspath(__file__)))
 meta = json.load(open(os.path.join(V, 'props_meta.json')))
 tagged = {}
+rf = os.path.join(V, 'units', 'READY.txt')
+ready = {l.strip() for l in open(rf) if l.strip() and not l.startswith('#')} if os.path.exists(rf) else None
 for d in sorted(os.listdir(os.path.join(V, 'units'))):
     f = os.path.join(V, 'units', d, 'unit.json')
-    if os.path.exists(f):
+    if os.path.exists(f) and (ready is None or d in ready):
         u = json.load(open(f))
         if u.get('disabled'): continue
         for p in u.get('properties', []): tagged.setdefault(p, []).append(d)
